@@ -44,42 +44,42 @@ def obligations():
         obs.append(Ob(id='C09.' + n, props=['C09'], quick_for=[], mem_gb=40, tu='kernel', tier='B', roots=[TK + '::reorder_incident_halffaces'], harness=mh,
                       includes=['wf.h', 'view.h', 'add_spec.h', 'query_spec.h', 'reorder_spec.h'], copies=[TK], defines=d, unwind=2 * max(nf, 3) + 2, covers=2, timeout=3000,
                       bounds=dict(edges=1, faces=nf, cells=2, face_valence=2, cell_valence=3, incident_list=nf), note='rotational order after reorder_incident_halffaces on any WF state with one edge, up to %d faces around it and two cells' % nf))
-    # rotational order on constructive shapes: the mesh is built by the real construction code; then, for EVERY edge of the
-    # shape and EVERY order of that edge's incident-halfface list, the real reorder_incident_halffaces runs and the result
-    # is compared with the rotational-order specification. All data are concrete, so CBMC's symbolic execution enumerates.
+    # rotational order on constructive shapes: the mesh is built by the real construction code; for ONE concrete edge with
+    # at least three incident faces the incident list of its first halfedge is put into an arbitrary (symbolic) order,
+    # the second list is as built or reversed; then the real reorder_incident_halffaces runs. Well-formedness and the
+    # frame are not repeated here: they are the contract proved for any state in C09.reorder.bu_ef.
     from obligations.query import DEFS, ROOTS_BUILD
     PERM = ', '.join('{%d,%d,%d,%d}' % p for p in __import__('itertools').permutations(range(4)))
-    for sh, shid, extra in (('twotets', 2, {}), ('ring3', 5, dict(LE=10, PE=10, LF=9, PF=9, LC=3, PC=3, VSTD_CAP_DEFAULT=26)), ('fan3', 6, dict(LE=12, PE=12, LF=10, PF=10, LC=3, PC=3, LINC=4, PINC=4, LOUT=5, POUT=5, VSTD_CAP_DEFAULT=26))):
-        n = 'reorder.shape.' + sh
-        d = dict(DEFS); d.update(extra)
-        h = '''
+    for sh, shid, extra, edges in (('twotets', 2, {}, (1, 3, 5)), ('ring3', 5, dict(LE=10, PE=10, LF=9, PF=9, LC=3, PC=3, VSTD_CAP_DEFAULT=26), (0,)), ('fan3', 6, dict(LE=12, PE=12, LF=10, PF=10, LC=3, PC=3, LINC=4, PINC=4, LOUT=5, POUT=5, VSTD_CAP_DEFAULT=26), (0,))):
+        for eh in edges:
+            n = 'reorder.shape.%s.e%d' % (sh, eh)
+            d = dict(DEFS); d.update(extra)
+            h = '''
 static const int PERM4[24][4] = {%(PERM)s};
-static _Bool perm_ok(const int *p, int cnt) { for (int i = 0; i < 4; i++) if ((i < cnt) != (p[i] < cnt)) return 0; return 1; }   /* permutes the first cnt positions only */
 void harness(void) {
-  TK base; { static const int W0[] = {SHAPE_W}; int aa[4]; unwitness(W0, &base, aa); }
-  int checked = 0;
-  for (int h = 0; h < (int)base.edges_.size; h++) {
-    int cnt = (int)INCN(&base, 2 * h);
-    for (int q = 0; q < 24; q++) if (perm_ok(PERM4[q], cnt)) for (int rev = 0; rev < 2; rev++) {
-      TK m = TopologyKernel__copy(&base);
-      for (int i = 0; i < 4; i++) if (i < cnt) m.incident_hfs_per_he_.data[2 * h].data[i].idx_ = INC(&base, 2 * h, PERM4[q][i]);
-      if (rev) for (int i = 0; i < 4; i++) if (i < cnt) m.incident_hfs_per_he_.data[2 * h + 1].data[i].idx_ = INC(&base, 2 * h + 1, cnt - 1 - i);
-      TK o = TopologyKernel__copy(&m);
-      { struct EH hh; hh.idx_ = h; TopologyKernel__reorder_incident_halffaces(&m, hh); }
-      int L1[4] = {0, 0, 0, 0}; for (int i = 0; i < 4; i++) if (i < cnt) L1[i] = INC(&m, 2 * h, i);
-      __CPROVER_assert(wf(&m), "C09.%(n)s.wf_preserved");
-      __CPROVER_assert(spec_ordered3(&m, 2 * h, L1, cnt), "C09.%(n)s.halffaces_in_rotational_order (each followed by the opposite of its in-cell neighbour; a boundary halfface, if any, last)");
-      _Bool mirror = 1; for (int i = 0; i < 4; i++) if (i < cnt && INC(&m, 2 * h + 1, i) != (INC(&m, 2 * h, cnt - 1 - i) ^ 1)) mirror = 0;
-      __CPROVER_assert(mirror, "C09.%(n)s.opposite_halfedge_reports_the_mirrored_reverse_sequence");
-      __CPROVER_assert(map_ecache(&o, &m, RHO_NONE, RHO_NONE, h, 0) && map_edges(&o, &m, RHO_NONE, RHO_NONE, 0, -1, 0) && map_faces(&o, &m, RHO_NONE, RHO_NONE, 0, -1, 0) && map_cells(&o, &m, RHO_NONE, RHO_NONE, 0, -1, 0) && map_vcache(&o, &m, RHO_NONE, RHO_NONE, -1, 0) && map_fcache(&o, &m, RHO_NONE, RHO_NONE, -1, 0), "C09.%(n)s.nothing_but_the_two_lists_of_this_edge_changes");
-      checked++;
-    }
-  }
-  __CPROVER_assert(checked >= 2 * (int)base.edges_.size, "C09.%(n)s.every_edge_was_checked");
+  TK m; { static const int W0[] = {SHAPE_W}; int aa[4]; unwitness(W0, &m, aa); }
+  const int h = %(eh)d;
+  int cnt = (int)INCN(&m, 2 * h);
+  __CPROVER_assume(cnt >= 3 && cnt <= 4);
+  COVER(1, "the chosen edge has at least three incident faces");
+  COVER_END;
+  int q = ENUM_Q;
+  _Bool isperm = 1; for (int i = 0; i < 4; i++) if ((i < cnt) != (PERM4[q][i] < cnt)) isperm = 0;
+  if (!isperm) return;      /* this instance is not a permutation of the first cnt positions */
+  _Bool rev = ENUM_REV;
+  int old0[4], old1[4];
+  for (int i = 0; i < 4; i++) if (i < cnt) { old0[i] = INC(&m, 2 * h, i); old1[i] = INC(&m, 2 * h + 1, i); }
+  for (int i = 0; i < 4; i++) if (i < cnt) { m.incident_hfs_per_he_.data[2 * h].data[i].idx_ = old0[PERM4[q][i]]; if (rev) m.incident_hfs_per_he_.data[2 * h + 1].data[i].idx_ = old1[cnt - 1 - i]; }
+  { struct EH hh; hh.idx_ = h; TopologyKernel__reorder_incident_halffaces(&m, hh); }
+  int L1[4] = {0, 0, 0, 0}; for (int i = 0; i < 4; i++) if (i < cnt) L1[i] = INC(&m, 2 * h, i);
+  __CPROVER_assert((int)INCN(&m, 2 * h) == cnt && (int)INCN(&m, 2 * h + 1) == cnt, "C09.%(n)s.list_lengths_unchanged");
+  __CPROVER_assert(spec_ordered3(&m, 2 * h, L1, cnt), "C09.%(n)s.halffaces_in_rotational_order (each followed by the opposite of its in-cell neighbour; a boundary halfface, if any, last)");
+  _Bool mirror = 1; for (int i = 0; i < 4; i++) if (i < cnt && INC(&m, 2 * h + 1, i) != (INC(&m, 2 * h, cnt - 1 - i) ^ 1)) mirror = 0;
+  __CPROVER_assert(mirror, "C09.%(n)s.opposite_halfedge_reports_the_mirrored_reverse_sequence");
 }
-''' % dict(PERM=PERM, n=n)
-        obs.append(Ob(id='C09.' + n, props=['C09', 'C01'], quick_for=['C09'] if sh == 'twotets' else [], tu='kernel', tier='B', roots=[TK + '::reorder_incident_halffaces'] + ROOTS_BUILD, harness=h,
-                      includes=['wf.h', 'view.h', 'add_spec.h', 'query_spec.h', 'reorder_spec.h', 'shapes.h'], copies=[TK], defines=d, unwind=50, adaptive_unwind=False, covers=0, timeout=3000,
-                      inits={'tk_init': TK}, prebuild_shape=shid, bounds=dict(shape=sh, edge='every edge of the shape', initial_order='every permutation of the incident list of the first halfedge, the second list as built or reversed'),
-                      note='rotational order after the real reorder_incident_halffaces on the constructive shape "%s": every edge, every initial order of its incident-halfface list (enumerated by symbolic execution over concrete data)' % sh))
+''' % dict(PERM=PERM, n=n, eh=eh)
+            obs.append(Ob(id='C09.' + n, props=['C09'], quick_for=['C09'] if (sh, eh) in (('twotets', 1), ('fan3', 0)) else [], tu='kernel', tier='B', roots=[TK + '::reorder_incident_halffaces'] + ROOTS_BUILD, harness=h,
+                          includes=['wf.h', 'view.h', 'add_spec.h', 'query_spec.h', 'reorder_spec.h', 'shapes.h'], copies=[TK], defines=d, unwind=26, adaptive_unwind=False, covers=1, timeout=600, enum=[('ENUM_Q', range(24)), ('ENUM_REV', range(2))],
+                          inits={'tk_init': TK}, prebuild_shape=shid, bounds=dict(shape=sh, edge=eh, initial_order='every permutation of the incident list of the first halfedge (48 enumerated instances, one CBMC run each), the second list as built or reversed'),
+                          note='rotational order after the real reorder_incident_halffaces on the constructive shape "%s", edge %d, starting from every order of its incident-halfface list' % (sh, eh)))
     return obs
